@@ -56,7 +56,7 @@ class _Blocked(BaseException):
     pass
 
 
-ALIASES = {'PackQ': 'Pack', 'PackFailQ': 'PackFail', 'AbortVoted': 'Abort', 'AbortStaged': 'Abort', 'EarlyStore': 'Store', 'StaleStore': 'Store', 'RestoreAny': 'Restore', 'AbortFailed': 'Abort', 'NewOidQ': 'NewOid', 'CloseReopenQ': 'CloseReopen', 'DeleteQ': 'Delete'}
+ALIASES = {'RestoreGone': 'Restore', 'PackQ': 'Pack', 'PackFailQ': 'PackFail', 'AbortVoted': 'Abort', 'AbortStaged': 'Abort', 'EarlyStore': 'Store', 'StaleStore': 'Store', 'RestoreAny': 'Restore', 'AbortFailed': 'Abort', 'NewOidQ': 'NewOid', 'CloseReopenQ': 'CloseReopen', 'DeleteQ': 'Delete'}
 
 
 class StorageReplayer:
@@ -166,6 +166,8 @@ class StorageReplayer:
                 r = st.undo(base64.encodebytes(self.tids.real(t)).rstrip(), self.t)
                 extra['oids'] = frozenset(self.U(x) for x in r[1])
             elif action == 'Restore':
+                if len(args) == 2:           # RestoreGone(c, o)
+                    args = [args[0], args[1], {'v': ('gone',), 'refs': frozenset()}, 0]
                 c, o, d, prev = (tuple(args) + (0,))[:4]
                 d = norm(d)
                 data = None if d['v'] == ('gone',) else self.data(o, d)
@@ -460,7 +462,7 @@ def cls_map(c):
     if c['Cls'] == 'MCClsPlain':
         return {o: 'plain' for o in range(c['NOid'])}
     if c['Cls'] == 'MCClsMix':
-        kinds = ['plain', 'merge', 'mergefail', 'broken', 'mergeconflict']
+        kinds = ['plain', 'merge', 'mergefail', 'broken', 'mergeconflict', 'mergeargs']
         return {o: kinds[o % len(kinds)] for o in range(c['NOid'])}
     raise ValueError(c['Cls'])
 
